@@ -41,10 +41,11 @@ type opT struct {
 }
 
 type histT struct {
-	Index int    `json:"index"`
-	Shape string `json:"shape"` // plain | backlog-fire | backlog-drain-write | backlog-drain-only
-	Ops   []opT  `json:"ops"`
-	D     int    `json:"d,omitempty"` // backlog shapes: write deadline in ms
+	Dialed bool   `json:"dialed,omitempty"` // the nbio side is a DialAsync connection and the first Set*Deadline is issued inside the dial callback
+	Index  int    `json:"index"`
+	Shape  string `json:"shape"` // plain | backlog-fire | backlog-drain-write | backlog-drain-only
+	Ops    []opT  `json:"ops"`
+	D      int    `json:"d,omitempty"` // backlog shapes: write deadline in ms
 }
 
 type coreCase struct {
@@ -80,6 +81,7 @@ func genHist(r *h.Run, idx int) histT {
 		hs.D = 250 + rng.Intn(300)
 		return hs
 	}
+	hs.Dialed = idx%6 == 4
 	n := 1 + rng.Intn(8)
 	sets := []string{"R", "W", "B"}
 	// a history is biased towards one direction so that renew/clear sequences
@@ -149,10 +151,11 @@ type closeEv struct {
 }
 
 type hrun struct {
-	cfg  outb.Cfg
-	hs   histT
-	srv  *nbio.Conn
-	peer net.Conn
+	firstInDialCb bool
+	cfg           outb.Cfg
+	hs            histT
+	srv           *nbio.Conn
+	peer          net.Conn
 
 	mu     sync.Mutex
 	eff    [2][]dl.Effect // 0 read, 1 write
@@ -421,6 +424,9 @@ func (x *hrun) runOps(rng *rand.Rand) {
 	}
 	writes := 0
 	for i, op := range x.hs.Ops {
+		if i == 0 && x.firstInDialCb {
+			continue
+		}
 		closed := x.isClosed()
 		if !closed {
 			if op.Edge {
@@ -835,20 +841,69 @@ func runCoreBatch(r *h.Run, cfg outb.Cfg, hists []histT, mon *dl.Monitor) {
 		}
 	})
 	defer nbio.VerifSetPoint(nil)
+	var dialLn net.Listener
+	if cfg.Net == "tcp" {
+		if l, err := net.Listen("tcp", "127.0.0.1:0"); err == nil {
+			dialLn = l
+			defer l.Close()
+		}
+	}
 	var runs []*hrun
 	for _, hs := range hists {
 		x := &hrun{cfg: cfg, hs: hs, closedCh: make(chan struct{}), handled: make(chan struct{}, 8)}
-		peer, err := env.Dial()
-		if err != nil {
-			r.Inconclusive(fmt.Sprintf("history %d: dial: %v", hs.Index, err))
-			continue
-		}
-		select {
-		case x.srv = <-srvCh:
-		case <-time.After(10 * time.Second):
-			peer.Close()
-			r.Inconclusive(fmt.Sprintf("history %d: accept not observed", hs.Index))
-			continue
+		var peer net.Conn
+		if hs.Dialed && cfg.Net == "tcp" && hs.Shape == "plain" && len(hs.Ops) > 0 && dialLn != nil {
+			// the nbio side dials a harness listener; the first Set*Deadline of the history is
+			// issued inside the dial callback (where the engine is just done with its dial timer)
+			done := make(chan error, 1)
+			op0 := hs.Ops[0]
+			derr := env.G.DialAsync("tcp", dialLn.Addr().String(), func(c *nbio.Conn, err error) {
+				if err == nil {
+					x.srv = c
+					byConn.Store(c, x)
+					x.firstInDialCb = true
+					x.shape = append(x.shape, "dialcb:"+op0.K)
+					x.record(x.call(op0.K, op0.D, "dial-callback"))
+				}
+				done <- err
+			})
+			if derr != nil {
+				r.Inconclusive(fmt.Sprintf("history %d: DialAsync: %v", hs.Index, derr))
+				continue
+			}
+			pc, aerr := dialLn.Accept()
+			if aerr != nil {
+				r.Inconclusive(fmt.Sprintf("history %d: harness accept: %v", hs.Index, aerr))
+				continue
+			}
+			select {
+			case e := <-done:
+				if e != nil {
+					pc.Close()
+					r.Inconclusive(fmt.Sprintf("history %d: dial callback error: %v", hs.Index, e))
+					continue
+				}
+			case <-time.After(10 * time.Second):
+				pc.Close()
+				r.Inconclusive(fmt.Sprintf("history %d: dial callback not observed", hs.Index))
+				continue
+			}
+			peer = pc
+			r.Count("histories_on_dialed_connections", 1)
+		} else {
+			var err error
+			peer, err = env.Dial()
+			if err != nil {
+				r.Inconclusive(fmt.Sprintf("history %d: dial: %v", hs.Index, err))
+				continue
+			}
+			select {
+			case x.srv = <-srvCh:
+			case <-time.After(10 * time.Second):
+				peer.Close()
+				r.Inconclusive(fmt.Sprintf("history %d: accept not observed", hs.Index))
+				continue
+			}
 		}
 		x.peer = peer
 		if hs.Shape != "plain" {
